@@ -3,6 +3,7 @@
 // (2) plan objects obtained earlier stay valid, (3) a reference LRU driven by the hooked get/put trace equals the
 // hooked key list after every request, (4) LRUCache<int,int> against the same model over all short op sequences.
 #include "dsp.h"
+#include <cstring>
 #include "lru-cache.h"
 #include "verif-hooks.h"
 
@@ -13,17 +14,14 @@ using namespace vd;
 namespace dl = dsplib;
 namespace vf = dsplib::verif;
 
-template<class F>
-static void in_fresh_thread(F f) {
-    std::thread t(f);
-    t.join();
-}
 
+//"equals the one obtained in a fresh thread": the same deterministic code ran on the same input, so the comparison is bitwise
+//(a plan whose structure depends on what the thread cached earlier gives results that are accurate yet not identical)
 static bool close_c(const arr_cmplx& a, const arr_cmplx& b) {
-    return a.size() == b.size() && diff2(a, b) <= 1e-12L * (norm2(b) + 1e-300L);
+    return a.size() == b.size() && (a.size() == 0 || std::memcmp(a.data(), b.data(), sizeof(cmplx_t) * size_t(a.size())) == 0);
 }
 static bool close_r(const arr_real& a, const arr_real& b) {
-    return a.size() == b.size() && diff2(a, b) <= 1e-12L * (norm2(b) + 1e-300L);
+    return a.size() == b.size() && (a.size() == 0 || std::memcmp(a.data(), b.data(), sizeof(real_t) * size_t(a.size())) == 0);
 }
 
 //---- reference LRU --------------------------------------------------------------------------------------------
@@ -123,8 +121,19 @@ struct Derived
             return dl::complex(dl::xcorr(gauss_real(r, a), gauss_real(r, b)));
         case 4:   //welch(x[b], winlen a)
             return dl::complex(dl::welch(gauss_real(r, b), a).pxx);
-        default:   //hilbert(x[a], b)
+        case 5:   //hilbert(x[a], b)
             return dl::hilbert(gauss_real(r, a), b);
+        case 6: {   //czt(x[a], a, w = exp(-2 pi i / a), start point on or off the unit circle chosen by b): the chirp plan of length a
+            const double th = -2 * 3.14159265358979323846 / a;
+            const cmplx_t w{std::cos(th), std::sin(th)};
+            const double pa = 0.37 * b;
+            const double ma = (b % 2) ? 1.0 : 0.9;
+            return dl::czt(gauss_cmplx(r, a), a, w, cmplx_t{ma * std::cos(pa), ma * std::sin(pa)});
+        }
+        default: {   //stft -> istft round trip (nfft = a)
+            const arr_real x = gauss_real(r, b);
+            return dl::complex(dl::istft(dl::stft(x, a), a));
+        }
         }
     }
     const arr_cmplx& reference(int kind, int a, int b) {
@@ -356,7 +365,7 @@ static void lru_template_sequences(int K, int maxlen, uint64_t& idx) {
 
 //---- random long history with long-lived plans ------------------------------------------------------------------
 static void random_history(int nreq, vh::Rng& r, int id) {
-    std::vector<int> lens = {3, 5, 6, 7, 9, 10, 12, 15, 16, 17, 20, 21, 24, 25, 27, 30, 32, 33, 35, 36, 40, 41, 43, 45, 48, 49, 50, 60, 64, 81, 86, 90, 97, 100, 101, 120, 125, 128, 194, 256};
+    std::vector<int> lens = {3, 5, 6, 7, 9, 10, 12, 15, 16, 17, 20, 21, 24, 25, 27, 30, 32, 33, 35, 36, 40, 41, 43, 45, 48, 49, 50, 60, 64, 81, 85, 86, 90, 91, 97, 100, 101, 105, 120, 121, 125, 128, 129, 175, 194, 256, 273, 363, 375, 425};
     for (int n : lens) {
         g_ref.ensure(n);
     }
@@ -405,9 +414,15 @@ static void random_history(int nreq, vh::Rng& r, int id) {
             if (r.below(4) == 0) {
                 //a call built on the transforms; input lengths from a small set so that the same target length is reached
                 //from longer and shorter inputs in every order
-                const int kind = int(r.below(6));
+                const int kind = int(r.below(8));
                 int a, b;
-                if (kind == 0 || kind == 1 || kind == 5) {
+                if (kind == 6) {
+                    a = int(r.pick(std::vector<int>{43, 47, 16, 45, 101}));   //primes above 41 use a chirp plan of the same length internally
+                    b = int(r.range(0, 5));
+                } else if (kind == 7) {
+                    a = int(r.pick(std::vector<int>{16, 64}));
+                    b = int(r.pick(std::vector<int>{200, 333}));
+                } else if (kind == 0 || kind == 1 || kind == 5) {
                     b = int(r.pick(std::vector<int>{16, 60, 64, 45}));
                     a = int(r.pick(std::vector<int>{5, 12, 40, 70, b, b + 1, 2 * b}));
                 } else if (kind == 2) {
@@ -422,7 +437,7 @@ static void random_history(int nreq, vh::Rng& r, int id) {
                 }
                 const arr_cmplx& want = g_derived.reference(kind, a, b);
                 const arr_cmplx got = Derived::run(kind, a, b);
-                const char* kn[6] = {"fft(x,n)", "rfft(x,n)", "FftFilter", "xcorr", "welch", "hilbert(x,n)"};
+                const char* kn[8] = {"fft(x,n)", "rfft(x,n)", "FftFilter", "xcorr", "welch", "hilbert(x,n)", "czt(x,m,w,a)", "istft(stft(x))"};
                 ++derived_checks;
                 if (!close_c(got, want)) {
                     mon.fail(vh::fmt("C10/result/derived/%s", kn[kind]), ctx_base + vh::fmt(", request %d: %s with sizes (%d,%d) differs from the same call in a fresh thread", i, kn[kind], a, b));
